@@ -140,7 +140,8 @@ def check(ctx):
                f"{norm(r_.value)} is returned under {[t for k, t in facts_at(rank, r_) if not t.startswith('iter:')][:2]}, which also holds for "
                f"non-empty vectors (all elements missing): the rank has fewer elements than the vector, and a sort by that key loses every row "
                f"or fails", clause="rank accepts entirely missing vectors; every element receives a rank")
-    branches = [n for n in rank.node.body if isinstance(n, ast.If) and "method" in norm(n.test)]
+    branches = [n for n in rank.node.body if isinstance(n, ast.If) and "method" in norm(n.test)
+                and not (n.body and isinstance(n.body[-1], ast.Raise))]        # a validation of `method` is not a ranking branch
     ctx.count("rank method branches", len(branches), 1)
     for br in branches:
         stores = []
